@@ -33,7 +33,8 @@ ASSUMPTIONS = [
     'fmtstr is the default "%g"; unit is empty; generalConfig.lazy_number_validation = False',
     'enum member names carry no leading/trailing white space',
     'setParameterFromString is run on a real SecopClient object whose connect/request are recording stubs; the node '
-    'side of it is import_value+validate of the json round trip of the data handed to request()',
+    'side of it is import_value+validate of the json round trip of the data handed to request(); its outcome is not '
+    'judged when the number denoted by a (six digit) float text lies outside the limits of the node type',
 ]
 
 BAD = ('RangeError', 'WrongTypeError')
@@ -148,7 +149,7 @@ def run_case(case):
     v = G.internalise(dx, d, G.untag(case['v']))
     obs = {'gd': G.gal_dtype(d, dt), 'gdc': G.gal_dtype(d, cdt) if cdt is not None else None, 'v': G.tag(v),
            'j2': None, 'json_text': None, 'strict': None, 'wire': None, 'cimp': None, 'back': None, 'text2': None,
-           'set': None, 'set_text': None, 'sent': None}
+           'set': None, 'set_text': None, 'sent': None, 'denoted': None}
     values = [obs['v']]
     envvals = []
     exp = _try(lambda: dx.export_value(v))
@@ -200,6 +201,11 @@ def run_case(case):
         s = _try(lambda: str(item))
         if s[0] == 'ok':
             obs['item_text'] = G.cps(s[1])
+            try:                                     # what the text denotes for python (used by the oracle only)
+                import ast
+                obs['denoted'] = G.tag(ast.literal_eval(s[1]))
+            except Exception:
+                pass
             r = _try(lambda: client.setParameterFromString('m', 'p', s[1]))
             if r[0] == 'err':
                 obs['set'] = r
@@ -392,7 +398,7 @@ def oracle(case, obs):
     # --- str(cache item) as input of setParameterFromString
     # (the text of a float is rounded to six digits: when the number it denotes lies outside the limits of the node's
     # type the node rightly refuses it - the property exempts float leaves from equality - so nothing is demanded then)
-    if obs['set'] is not None and (obs['sent'] is None or _floats_within(d, obs['sent'])):
+    if obs['set'] is not None and (obs['denoted'] is None or _floats_within(d, obs['denoted'])):
         item = G.from_cps(obs.get('item_text', []))
         r = obs['set']
         if r[0] != 'ok':
@@ -458,20 +464,6 @@ def _tagged_has(t, kinds):
     return False
 
 
-def f_setparam_unexported(case, obs, f):
-    """the request data is the internal value: an enum member / bytes in it (json.dumps raises TypeError), or a scaled
-    leaf sent as the float instead of the integer (refused by the node as WrongTypeError/RangeError, or taken as the
-    integer when it happens to be a whole number: wrong value)"""
-    if f['class'] not in ('setparam-not-accepted', 'setparam-changed') or obs.get('sent') is None:
-        return False
-    scaled = any(x['t'] == 'scaled' and G.dec_float(x['scale']) != 1.0 for x in _types(case['d']))
-    if f['class'] == 'setparam-not-accepted':
-        return (obs['set'] == ['err', 'TypeError'] and _tagged_has(obs['sent'], ('enum', 'bytes'))) or \
-            (obs['set'] in (['err', 'RangeError'], ['err', 'WrongTypeError']) and scaled
-             and _tagged_has(obs['sent'], ('float',)))
-    return scaled
-
-
 def f_client_string_maxchars(case, obs, f):
     collapsed = any(x['t'] == 'string' and x['min'] > 0 and x['max'] == UNLIMITED for x in _types(case['d']))
     return collapsed and (f['class'] in ('client-import-raises',) or
@@ -493,7 +485,6 @@ def f_scaled_huge(case, obs, f):
 FINDING_CLASSIFIERS = {
     'one-tuple-text': f_one_tuple,
     'float-negzero-text': f_negzero,
-    'setparam-unexported': f_setparam_unexported,
     'client-string-maxchars': f_client_string_maxchars,
     'scaled-huge-grid': f_scaled_huge,
 }
